@@ -939,3 +939,50 @@ def enum_const(F, body, op, depth=0):
     if rv['k'] == 'ref' and rv['pl']['p'] == ['*']:
         return enum_const(F, body, {'cp': {'l': rv['pl']['l'], 'p': []}}, depth + 1)
     return None
+
+
+# ------------------------------------------------------------ constant labels
+def const_label(F, body, op, depth=0):
+    """A comparable value for a constant byte-string / array operand: the printed literal
+    for `b"..."`/`"..."`, or the tuple of element values for a promoted `&[a, b, ..]`."""
+    if depth > 8:
+        return None
+    if 'c' in op:
+        c = op['c']
+        if 'promoted' in c:
+            root = body.d.get('promoted_of') or body.key
+            pb = F.bodies.get('%s::promoted[%d]' % (root, c['promoted']))
+            if pb is None:
+                return None
+            for st in pb.stmts(0):
+                rv = st['rv']
+                if rv['k'] == 'agg' and 'array' in rv:
+                    vals = tuple(o['c'].get('v') if 'c' in o else None for o in rv['ops'])
+                    return ('array',) + vals
+                if rv['k'] == 'repeat' and 'c' in rv['a']:
+                    return ('repeat', rv['a']['c'].get('v'), rv['n'])
+            return None
+        s = c.get('s')
+        if s and (s.startswith('b"') or s.startswith('"') or s.startswith('const b"') or s.startswith('const "')):
+            return ('lit', s.replace('const ', ''))
+        if 'v' in c:
+            return ('int', c['v'])
+        return None
+    l = op_local(op)
+    if l is None:
+        return None
+    cur, d = resolve_copy(body, l)
+    if d is None or d.kind != 'assign':
+        if d is not None and d.kind == 'call' and d.call.is_(r'^std::ops::Deref::deref$', r'^std::convert::AsRef::as_ref$') and d.call.args:
+            return const_label(F, body, d.call.args[0], depth + 1)
+        return None
+    rv = d.rv
+    if rv['k'] == 'use':
+        return const_label(F, body, rv['a'], depth + 1)
+    if rv['k'] == 'ref':
+        return const_label(F, body, {'cp': {'l': rv['pl']['l'], 'p': []}}, depth + 1)
+    if rv['k'] == 'cast':
+        return const_label(F, body, rv['a'], depth + 1)
+    if rv['k'] == 'agg' and 'array' in rv:
+        return ('array',) + tuple(o['c'].get('v') if 'c' in o else None for o in rv['ops'])
+    return None
